@@ -338,6 +338,15 @@ def AllSteps (cfg : Cfg) (P : Ledger → Op → Prop) : Ledger → List Op → P
     | none => True
     | some s' => AllSteps cfg P s' ops
 
+theorem AllSteps.of_forall {cfg : Cfg} {P : Ledger → Op → Prop} : ∀ (ops : List Op) (s : Ledger),
+    (∀ s op, op ∈ ops → P s op) → AllSteps cfg P s ops
+  | [], _, _ => trivial
+  | op :: ops, s, h => by
+    refine ⟨h s op List.mem_cons_self, ?_⟩
+    split
+    · trivial
+    · exact AllSteps.of_forall ops _ (fun s o ho => h s o (List.mem_cons_of_mem _ ho))
+
 theorem typed_init (cfg : Cfg) (st : Bool) : Typed cfg st {} :=
   ⟨⟨fun i nd h => by simp at h, fun e h => by cases h⟩, fun p h => by cases h⟩
 
